@@ -24,6 +24,14 @@ def free_port():
 
 
 def client_stream(rng, kind):
+    if kind == "burst":
+        # exactly k x 2048 bytes in one write, then silence: nothing may be withheld waiting for more
+        out = b""
+        want = 2048 * rng.choice([1, 2, 3])
+        while len(out) < want - 400:
+            out += pygen.frame(pygen.payload(rng, rng.choice([1005, 1230] + pygen.MSM), rng.randint(20, 300)))
+        pad = want - len(out)
+        return out + (pygen.frame(pygen.payload(rng, 1019, pad - 6)) if pad >= 7 else pygen.junk(rng, pad))
     if kind == "bulk":
         # more than the proxy's 2048-byte read buffer, frames starting exactly at the buffer boundaries
         out = b""
@@ -101,7 +109,7 @@ def session(ctx, binary, n, rng, kind):
         def pump(sock, data, seed):
             r = random.Random(seed)
             i = 0
-            if kind == "bulk" and sock is cli:
+            if kind in ("bulk", "burst") and sock is cli:
                 try:
                     sock.sendall(data)      # all at once: the proxy's reads fill its buffer
                 except OSError:
@@ -136,7 +144,7 @@ def session(ctx, binary, n, rng, kind):
               threading.Thread(target=drain, args=(cli, c_got, len(s2c), stop))]
         for t in ts:
             t.start()
-        deadline = time.time() + 30
+        deadline = time.time() + 20
         while time.time() < deadline and (len(s_got) < len(c2s) or len(c_got) < len(s2c)) and p.poll() is None:
             time.sleep(0.01)
         ev["stalled"] = (len(s_got) < len(c2s) or len(c_got) < len(s2c)) and p.poll() is None
@@ -215,8 +223,8 @@ def run(ctx, replay):
         raise vlib.Inconclusive("Proxy.tla with a crashing parser should violate StaysAlive (vacuity guard)")
     binary = build_binary(ctx, "proxy")
     rng = random.Random(ctx.seed * 104729 + 19)
-    kinds = ["valid", "malformed", "html", "random", "mixed", "many", "bulk", "bulk", "mixed", "html"]
-    nsess = 50 if ctx.thorough() else 10
+    kinds = ["valid", "malformed", "html", "random", "mixed", "many", "bulk", "burst", "bulk", "mixed", "html", "burst"]
+    nsess = 60 if ctx.thorough() else 12
     events = []
     for n in range(nsess):
         events.append(session(ctx, binary, n, rng, kinds[n % len(kinds)]))
@@ -256,5 +264,5 @@ def run(ctx, replay):
              "/status/report fetched at quiescence; non-trivial = non-empty client stream",
         assumptions=["the three traffic-derived slots are cut out of the page with the literal text of the report template",
                      "listed messages are read back from the hex dumps; expected messages from FramerCore (real CRC) on the client stream without end of input",
-                     "process death or a relay stalled for 30 s is the 'stops the relayed stream' violation"],
+                     "process death or a relay stalled for 20 s is the 'stops the relayed stream' violation"],
         exhaustive=False)
